@@ -540,7 +540,7 @@ package netty
 //@   mode intwrap
 //@   requires chinv(c)
 //@   modifies all
-//@   preserves handlerContext.*, pipeline.*, ghost node, ghost pos, channel.ctx, channel.cancel, channel.transport, channel.executor, channel.pipeline, channel.writeQueue, channel.untilWrite, channel.writeBuffers, channel.recycleBuffers, channel.id, channel.closed
+//@   preserves handlerContext.*, pipeline.*, ghost node, ghost pos, channel.ctx, channel.cancel, channel.transport, channel.executor, channel.pipeline, channel.writeQueue, channel.untilWrite, channel.writeBuffers, channel.recycleBuffers, channel.id
 //@   loop 0 modifies none
 //@   loop 0 emits
 //@   loop 0 invariant chinv(c)
